@@ -33,7 +33,8 @@ type segConn struct {
 	eof     bool
 	written []byte
 	nread   int
-	holdW   bool // Write blocks (before it copies) until released: a slow socket
+	onWrite func([]byte) // observer of the bytes given to Write (at the time they are copied)
+	holdW   bool         // Write blocks (before it copies) until released: a slow socket
 	blockW  int
 }
 
@@ -98,6 +99,9 @@ func (c *segConn) Write(p []byte) (int, error) {
 		return 0, io.ErrClosedPipe
 	}
 	c.written = append(c.written, p...)
+	if c.onWrite != nil {
+		c.onWrite(p)
+	}
 	c.cond.Broadcast()
 	return len(p), nil
 }
